@@ -1028,7 +1028,7 @@ func findStyleAttributes(tree *utils.HTMLNode, presentationalHints bool, baseUrl
 			// From https://www.w3.org/TR/css-lists-3/
 			if element.Get("value") != "" {
 				out = append(out, styleAttrSpec{specificity: specificity, styleAttr: checkStyleAttribute(element,
-					fmt.Sprintf("counter-reset:list-item %s;counter-increment:none", element.Get("value")))})
+					fmt.Sprintf("counter-set:list-item %s", element.Get("value")))})
 			}
 		}
 	}
